@@ -4,7 +4,7 @@ from hypothesis import strategies as st
 import gen
 import model as M
 import oracle
-from common import ModelRun, model_classes, Blocks, cmat, pipeline_guard
+from common import warmup, ModelRun, model_classes, Blocks, cmat, pipeline_guard
 from drive import Result
 
 RULE = ("Hypothesis generates Hermitian lattice models (N<=6 quick, <=8 thorough; real and complex-Hermitian amplitudes) and "
@@ -27,6 +27,7 @@ def strategy(tier):
 
 def execute(case, ctx):
     mdl = case["model"]
+    warmup(ctx, mdl, upto="hprepare")
     run = ModelRun(ctx, mdl, [("hmatrix", "hmatrix"), ("hcompute", "hcompute"), ("eigen", "eigen")], upto="hprepare")
     classes = model_classes(mdl)
     own = run.sc.tags["hprepare"]
